@@ -26,6 +26,7 @@ EXPLANATION = (
     "links only in templates rendered at depth 1. R5: directory names agree between get_dir, "
     "writeout and DocPage. R6: graph node URLs only for visible entities. Decides these structural "
     "necessary conditions only, not the existence of each concrete target file."
+    " R7: every entity whose get_url() names its own page is gathered into a project list from which pages are written (including namelists of every code unit, after pruning). R8: the anchors [[owner:item]] and entity links point to are emitted unconditionally on the owner's page. R1 and R5 work on the macro-expanded templates and on symbolically evaluated string compositions, not on literal text."
 )
 ASSUMPTIONS = [
     "jinja2's own parser is used to read templates (nothing is rendered)",
